@@ -41,6 +41,69 @@ func scenario(idx int, wrapped *drv.Block, levels, bound int) *h.Scn {
 	return &h.Scn{Name: fmt.Sprintf("C12/wrap/L%d/%s/d%d", levels, wrapped.String(), bound), Body: body, Opts: verifrt.Options{Bound: bound, UseCache: true}}
 }
 
+// unjoined: the content of the sub-process splits (parallel or inclusive gateway) into 2..3
+// branches that are not joined: each ends at its own inner end event, so the sub-process holds
+// several tokens that are consumed one after the other. The parent continues exactly once and
+// only when the last of them is gone. There is no inlined counterpart with the same timing
+// (inline, nothing would wait for the other branches), so the lock-step model is the token game
+// of the graph itself, in which a sub-process scope completes when it holds no token.
+func unjoined(kind drv.Kind, n, levels, bound int) *h.Scn {
+	g := drv.NewGraph(fmt.Sprintf("c12u_%s_%d_%d", kind, n, levels))
+	s, e := g.Add(drv.Start, "start"), g.Add(drv.End, "end")
+	after := g.Add(drv.Task, "after")
+	outer := g.AddSub("sp1")
+	g.Link(s, outer, nil)
+	g.Link(outer, after, nil)
+	g.Link(after, e, nil)
+	inner := outer
+	for l := 2; l <= levels; l++ {
+		is, ie := inner.Inner.Add(drv.Start, fmt.Sprintf("sp%d_start", l-1)), inner.Inner.Add(drv.End, fmt.Sprintf("sp%d_end", l-1))
+		next := inner.Inner.AddSub(fmt.Sprintf("sp%d", l))
+		inner.Inner.Link(is, next, nil)
+		inner.Inner.Link(next, ie, nil)
+		inner = next
+	}
+	c := inner.Inner
+	is := c.Add(drv.Start, inner.ID+"_start")
+	f := c.Add(kind, "F")
+	c.Link(is, f, nil)
+	for i := 1; i <= n; i++ {
+		t, te := c.Add(drv.Task, fmt.Sprintf("b%d", i)), c.Add(drv.End, fmt.Sprintf("bend%d", i))
+		if kind == drv.OR {
+			c.Link(f, t, drv.Var(fmt.Sprintf("c%d", i)))
+		} else {
+			c.Link(f, t, nil)
+		}
+		c.Link(t, te, nil)
+	}
+	defs := g.Parse()
+	body := func() {
+		vars := map[string]any{}
+		if kind == drv.OR {
+			// every non-empty subset of branches
+			mask := 1 + verifrt.Choose(1<<n-1)
+			for i := 1; i <= n; i++ {
+				vars[fmt.Sprintf("c%d", i)] = mask&(1<<(i-1)) != 0
+			}
+		}
+		ls := &drv.LockStep{Sig: "C12/unjoined", G: g, Defs: defs, Vars: vars}
+		ls.AfterFinal = func(r *drv.Run, m *drv.Model) {
+			for id, k := range r.Landmarks {
+				if k > r.Visits[id] {
+					h.Fail("C12/unjoined/continues-once", "sub-process %s: %d landmark traces for %d visits", id, k, r.Visits[id])
+				}
+			}
+		}
+		ls.Body()()
+	}
+	sc := &h.Scn{Name: fmt.Sprintf("C12/unjoined/%s/branches%d/L%d/d%d", kind, n, levels, bound), Body: body, Opts: verifrt.Options{Bound: bound, UseCache: true}}
+	sc.Weight = n * n * levels * (1 + 2000*bound)
+	if bound >= 1 {
+		sc.Split = 4
+	}
+	return sc
+}
+
 func init() {
 	h.Register("C12", func(tier string) ([]*h.Scn, []*h.Plain) {
 		var out []*h.Scn
@@ -78,6 +141,16 @@ func init() {
 			for levels := 1; levels <= 2; levels++ {
 				for _, w := range drv.WrapVariants(b, levels) {
 					add(w, levels, 1, 4)
+				}
+			}
+		}
+		for _, kind := range []drv.Kind{drv.AND, drv.OR} {
+			for n := 2; n <= 3; n++ {
+				for levels := 1; levels <= 2; levels++ {
+					out = append(out, unjoined(kind, n, levels, 0))
+					if n == 2 && (levels == 1 || thorough) {
+						out = append(out, unjoined(kind, n, levels, 1))
+					}
 				}
 			}
 		}
